@@ -17,7 +17,8 @@ from vlib.runner import CaseResult, Check, Part, exc_bucket, main
 
 @st.composite
 def cases(draw, tier):
-    return dict(prog=draw(dsl.track_programs()), seed=draw(st.integers(0, 10**6)), backward=draw(st.sampled_from([True, True, True, False])))
+    return dict(prog=draw(dsl.track_programs()), seed=draw(st.integers(0, 10**6)), backward=draw(st.sampled_from([True, True, True, False])),
+                warmup=draw(st.sampled_from([None, None, "backward", "forward-only"])))
 
 
 def bitequal(a, b):
@@ -77,6 +78,10 @@ def run(c) -> CaseResult:
     # ---- (a) bit-identical outputs and gradients
     try:
         tm = track_scales(m)
+        if c.get("warmup"):
+            # an earlier call of the same tracked module (other inputs): the metrics must describe the *last* call only
+            run_module(tm, dsl.make_inputs(prog, c["seed"] + 1), c["warmup"] == "backward", False)
+            res.labels.append("second-call-after-" + c["warmup"])
         outs1, pg1, ig1 = run_module(tm, inputs, c["backward"], False)
         graph = tm.scales_graph()
     except Exception as e:  # noqa: BLE001
@@ -237,7 +242,7 @@ CHECK = Check(
            Part("analyse", run_analyse, strategy=analyse_cases, budget={"quick": 60, "thorough": 1500})],
     rule=("track: Hypothesis-generated modules (as C16 plus fan-out, integer/bool intermediates, cat/stack/rotate-half list consumers, "
           "keyword tensor arguments, index tensors, views/negations/*1.0, detached and integer outputs, 1-4 outputs, inputs with zeros), "
-          "forward-only and forward+backward. Oracle (a) the untracked module: outputs, parameter and input gradients bit-identical; "
+          "forward-only and forward+backward, optionally preceded by an earlier call of the same tracked module on other inputs (metrics must describe the last call). Oracle (a) the untracked module: outputs, parameter and input gradients bit-identical; "
           "(b) an independent fx.Interpreter with Tensor.register_hook (run through the public apply_transform on the same module) captures "
           "every node's tensor and total gradient: node.meta['metrics'] must equal mean|x|, |mean x|, std, max|x|, min|x|, numel recomputed "
           "with numpy in float64 (rel 1e-4, abs 1e-7), backward metrics present iff a gradient reached the tensor, non-float nodes "
